@@ -253,13 +253,20 @@ class Sym:
                         nxt.append((s2, None))
             outs = nxt
         res = []
-        for s, _ in outs:
-            for s2, (k, v) in self.ev(body["body"], s):
-                if k == RET:
-                    k = VAL
-                if k in (CONT, BRK):
-                    raise Undecidable(body["body"], "loop exit escaping a function body")
-                res.append((s2, (k, v)))
+        pushed = body["path"] not in self.stack
+        if pushed:
+            self.stack.append(body["path"])
+        try:
+            for s, _ in outs:
+                for s2, (k, v) in self.ev(body["body"], s):
+                    if k == RET:
+                        k = VAL
+                    if k in (CONT, BRK):
+                        raise Undecidable(body["body"], "loop exit escaping a function body")
+                    res.append((s2, (k, v)))
+        finally:
+            if pushed:
+                self.stack.pop()
         return res
 
     # ---- expression evaluation --------------------------------------------------------------------------
@@ -937,12 +944,8 @@ class Sym:
         if tgt and tgt in self.fx.bodies:
             b = self.fx.bodies[tgt]
             if b["krate"] in self.krates and not self.opaque(tgt) and tgt not in self.stack \
-                    and len(self.stack) < self.inline_depth and not mut_idx and not has_loop(b):
-                self.stack.append(tgt)
-                try:
-                    res = self.eval_body(b, vals, St(conds=st.conds, effects=st.effects, n=st.n))
-                finally:
-                    self.stack.pop()
+                    and len(self.stack) <= self.inline_depth and not mut_idx and not has_loop(b):
+                res = self.eval_body(b, vals, St(conds=st.conds, effects=st.effects, n=st.n))
                 out = []
                 for s2, (k, v) in res:
                     s3 = st.copy()
@@ -1014,11 +1017,7 @@ class Sym:
             if tgt and tgt in self.fx.bodies and not self.opaque(tgt) and tgt not in self.stack \
                     and len(self.stack) < self.inline_depth and not has_loop(self.fx.bodies[tgt]) \
                     and self.fx.bodies[tgt]["krate"] in self.krates:
-                self.stack.append(tgt)
-                try:
-                    res = self.eval_body(self.fx.bodies[tgt], list(args), St(conds=st.conds, effects=st.effects, n=st.n))
-                finally:
-                    self.stack.pop()
+                res = self.eval_body(self.fx.bodies[tgt], list(args), St(conds=st.conds, effects=st.effects, n=st.n))
                 out = []
                 for s2, (k, v) in res:
                     s3 = st.copy()
@@ -1082,6 +1081,13 @@ def parse_const(v, ty):
 
 # ---- pretty printing of terms / paths (evidence, reports) -------------------------------------------------
 def tstr(t, depth=0):
+    try:
+        return _tstr(t, depth)
+    except Exception:
+        return repr(t)[:300]
+
+
+def _tstr(t, depth=0):
     if not isinstance(t, tuple):
         return str(t)
     if not t:
@@ -1138,6 +1144,9 @@ def tstr(t, depth=0):
         return "|%s|" % t[1].split("::")[-1].strip("{}")
     if k == "fnref":
         return t[1].split("::")[-1]
+    if k == "fmtargs":
+        a = list(t[2])
+        return "fmt(\"%s\")" % "".join(p[1] if p[0] == "txt" else ("{%s}" % (tstr(a.pop(0)[1], d) if a else "?")) for p in t[1])
     if k == "upd":
         return "%s{%s}" % (tstr(t[1], d), ", ".join("%s<-%s" % (".".join(p), tstr(v, d)) for p, v in t[2]))
     if k == "after":
